@@ -14,7 +14,7 @@ import warnings
 from ufl.argument import Argument
 from ufl.checks import is_cellwise_constant
 from ufl.coefficient import Coefficient
-from ufl.constantvalue import IntValue
+from ufl.constantvalue import IntValue, RealValue
 from ufl.core.multiindex import FixedIndex
 from ufl.corealg.map_dag import map_expr_dags
 from ufl.corealg.multifunction import MultiFunction
@@ -321,8 +321,9 @@ class SumDegreeEstimator(MultiFunction):
         """
         _f, g = v.ufl_operands
 
-        if isinstance(g, IntValue):
-            gi = g.value()
+        if isinstance(g, IntValue) or (isinstance(g, RealValue) and float(g.value()).is_integer()):
+            # A non-negative integer exponent, also when written as a float (f**2.0)
+            gi = int(g.value())
             if gi >= 0:
                 if isinstance(a, int):
                     return a * gi
